@@ -47,6 +47,10 @@ def status_rows():
     for first, second in (('Responder', 'Success'), ('Success', 'Responder'), ('Requester', 'Success')):
         for rsigned in (True, False):
             out.append({'kind': 'status', 'top': first, 'sub': None, 'msg': None, 'assertion': True, 'rsigned': rsigned, 'version': '2.0', 'second_status': second})
+    # an attribute of the same local name qualified with the element's own namespace next to the declared (unqualified) one: the declared one counts
+    for rsigned in (True, False):
+        out.append({'kind': 'status', 'top': 'Responder', 'sub': None, 'msg': None, 'assertion': True, 'rsigned': rsigned, 'version': '2.0', 'qualified': 'status-success'})
+        out.append({'kind': 'version', 'top': 'Success', 'sub': None, 'msg': None, 'assertion': True, 'rsigned': rsigned, 'version': '1.1', 'qualified': 'version-2.0'})
     for v in VERSIONS:
         for top in ('Success', 'Requester'):
             for assertion in (False, True):
@@ -81,6 +85,10 @@ def run_response(case):
     alist = [a] if case['assertion'] else []
     if case.get('second_status'):
         r['trailing_status'] = {'code': _uri(case['second_status'])}
+    if case.get('qualified') == 'status-success' and r.get('status'):
+        r['status']['code_extra_attrs'] = ' samlp:Value="%sSuccess"' % S
+    if case.get('qualified') == 'version-2.0':
+        r['extra_attrs'] = ' samlp:Version="2.0"'
     if attrq:
         a['authn'] = []
         r['destination'] = None
